@@ -80,10 +80,14 @@ def check(run):
                 try:
                     routes["factory"] = getattr(pfo, n)(*ps)(r)
                     args = " ".join(num(x) for x in ps)
-                    pots = potable_energy(["A-B : >=0 as.%s %s" % (n, args), "C-D : >=0 viaformula"],
-                                          ["viaformula(r) = as.%s(%s)" % (n, ", ".join(["r"] + [num(x) for x in ps]))])
+                    # the formula language does not distinguish upper and lower case: AS.Buck(r, ..) is the same call (round-6 seed C06_7)
+                    cased = "".join(ch.upper() if rng.random() < 0.5 else ch for ch in "as." + n)
+                    pots = potable_energy(["A-B : >=0 as.%s %s" % (n, args), "C-D : >=0 viaformula", "E-F : >=0 viacase"],
+                                          ["viaformula(r) = as.%s(%s)" % (n, ", ".join(["r"] + [num(x) for x in ps])),
+                                           "viacase(r) = %s(%s)" % (cased, ", ".join(["r"] + [num(x) for x in ps]))])
                     routes["potable"] = pots[0].energy(r)
                     routes["formula"] = pots[1].energy(r)
+                    routes["formula, name written %s" % cased] = pots[2].energy(r)
                 except Exception as e:
                     run.fail("form-route", "as.%s: access route raised %s: %s" % (n, type(e).__name__, str(e)[:200]), dict(form=n, r=r, params=ps))
                     continue
@@ -91,7 +95,7 @@ def check(run):
                 # function / factory / potable share one code path and must agree exactly; in the formula route the parameters are
                 # re-parsed from text by exprtk's own number parser (not correctly rounded), so 1e-12 relative is allowed there
                 vals = set(repr(routes[k]) for k in ("function", "factory", "potable"))
-                if len(vals) != 1 or not close(routes["formula"], routes["function"], 1e-12, 1e-300):
+                if len(vals) != 1 or any(not close(routes[k], routes["function"], 1e-12, 1e-300) for k in routes if k.startswith("formula")):
                     run.fail("form-route", "as.%s at r=%r params %s: access routes disagree: %s" % (n, r, ps, routes), dict(form=n, r=r, params=ps, routes=routes))
     # ---- many entries of the SAME form in one model: each entry keeps its own parameters ---------------------------------------
     # (parameter lists that differ in one position only, small integers of both signs and equal-looking values included: anything shared between
@@ -137,6 +141,34 @@ def check(run):
     if zbl_manual_dev > 1e-9:
         run.fail("zbl-manual-constants", "as.zbl evaluates the ZBL-1985 constant set (0.8854*0.529; 0.1818/3.2 ...); the reference manual prints the universal set "
                  "(0.46850; 0.18175/3.19980 ...): relative deviation up to %.3g" % zbl_manual_dev, dict(form="zbl", max_relative_deviation=zbl_manual_dev))
+    # ---- polynomials of different orders evaluated one after the other AT THE SAME r (the module holds one polynomial object for all of them: anything it keeps
+    #      from the previous evaluation - powers of r, a coefficient list - must not leak into the next; round-6 seed C06_8) --------------------------------------
+    for rep in range(run.n(12, 120)):
+        r0 = formlib.rnd(rng, 0.1, 5.0, 3)
+        orders = [rng.randint(0, 8) for _ in range(6)]
+        seq = [[formlib.rnd(rng, -5, 5, 3) for _ in range(o + 1)] for o in orders]
+        run.case(key=("poly-sequence", r0, tuple(orders)), kind="doc/polynomial-sequence")
+        run.traces += 1
+        for cs in seq:
+            v = pfn.polynomial(r0, *cs)
+            d = sum(c * r0 ** i for i, c in enumerate(cs))
+            if not close(v, d, 1e-12, 1e-12):
+                run.fail("form-value", "polynomials of orders %s evaluated one after the other at r=%r: as.polynomial(r, %s) = %r, sum c_i r^i = %r" % (orders, r0, cs, v, d),
+                         dict(form="polynomial", r=r0, sequence=seq, coefs=cs))
+                break
+        else:
+            if rep < run.n(3, 20):
+                # the same through a potable sum of two polynomials of different order (both evaluated at each r)
+                a, b = seq[0], seq[1]
+                try:
+                    pot = potable_energy(["A-B : >=0 sum(as.polynomial %s, as.polynomial %s)" % (" ".join(num(x) for x in a), " ".join(num(x) for x in b))])[0]
+                    v = pot.energy(r0)
+                except Exception as e:
+                    run.fail("form-route", "sum of two polynomials raised %s: %s" % (type(e).__name__, str(e)[:200]), dict(form="polynomial", a=a, b=b))
+                    continue
+                d = sum(c * r0 ** i for i, c in enumerate(a)) + sum(c * r0 ** i for i, c in enumerate(b))
+                if not close(v, d, 1e-12, 1e-12):
+                    run.fail("form-value", "sum(as.polynomial %s, as.polynomial %s) at r=%r = %r, the two polynomials add up to %r" % (a, b, r0, v, d), dict(form="polynomial", r=r0, a=a, b=b))
     # ---- polynomial, orders 0..8 ----------------------------------------------------------------------------------------
     pts = []
     for order in range(0, 9):
